@@ -166,7 +166,11 @@ class NamespaceMixin(object):
             ast = fullast
 
         if isinstance(ast, declast.Declaration):
-            if ast.name is None:
+            if ast.name is None or (
+                    ast.get_name(use_attr=False) is None
+                    and not ast.is_ctor() and not ast.is_dtor()):
+                # The name attribute renames a declaration,
+                # it does not replace the declarator.
                 raise RuntimeError(
                     "Missing name in declaration: '{}'".format(decl)
                 )
